@@ -41,6 +41,8 @@ pub struct TransferSpec {
     pub path: Vec<Vec<u8>>,
     pub con: bool,
     pub token_len: usize,
+    /// the token length changes from request to request within the transfer
+    pub token_vary: bool,
     pub extra: Vec<(u16, Vec<u8>)>,
     pub kind: TKind,
     pub probe: Probe,
@@ -389,7 +391,17 @@ impl Lane {
         if self.cur().exchanges >= MAX_EXCHANGES {
             return self.finish(TStatus::Failed("too-many-exchanges"));
         }
-        let (mid, token) = ids.fresh(t.token_len);
+        let tl = if t.token_vary {
+            let l = [t.token_len, 0, 8, 1, 2, 7, 3][self.exch as usize % 7];
+            if t.con {
+                l
+            } else {
+                l.max(2)
+            }
+        } else {
+            t.token_len
+        };
+        let (mid, token) = ids.fresh(tl);
         let mtype = if t.con { MessageType::Confirmable } else { MessageType::NonConfirmable };
         let bytes = build_request(t.method, mtype, mid, &token, &t.path, &t.extra, b1, b2, payload);
         let tag = self.tag(0);
